@@ -32,8 +32,8 @@ func main() {
 		ID:    "C04",
 		Level: "exploration",
 		Rule: "inputs with a verdict known by construction: a lint-clean skeleton (vcl_recv/vcl_deliver with #FASTLY macros, backend, table, ACL, helper subroutine, optional included module resolved through -I or next to the main file) " +
-			"plus k_E/k_W/k_I injected constructs from a catalogue of (snippet, rule, default severity) entries that each produce exactly one diagnostic (29 ERROR entries over 20 rules + 3 without rule name, 15 WARNING entries over 7 rules + 2 without rule name, " +
-			"4 INFO entries over 2 rules + 1 without rule name), placed in the main file or the module, at top level of a subroutine or nested in if/else; syntax errors from 15 token-level breakers in the main file, the module or a snippet; " +
+			"plus k_E/k_W/k_I injected constructs from a catalogue of (snippet, rule, default severity) entries that each produce exactly one diagnostic (32 ERROR entries: 29 over 22 rules + 3 without rule name; 15 WARNING entries: 13 over 7 rules + 2 without rule name; " +
+			"4 INFO entries: 3 over 2 rules + 1 without rule name; plus the rule snippet-scope-required of snippets without @scope), placed in the main file or the module, at top level of a subroutine or nested in if/else; syntax errors from 15 token-level breakers in the main file, the module or a snippet; " +
 			"`// falco-ignore-next-line` comments (bare, naming the rule, naming another rule) covering all or some errors; .falco.yml rule overrides mapping injected ERROR rules down to WARNING/INFO/IGNORE (all or only some), injected WARNING/INFO rules up to ERROR, " +
 			"unrelated rules and invalid levels; statement-only snippet files with and without @scope. Every (input, configuration) is linted by the real `falco lint` binary in a private directory in all 6 combinations {plain,-json} x {default,-v,-vv}. " +
 			"Monitors: (i) exit status != 0 iff [syntax error or >=1 diagnostic of effective severity ERROR]; (ii) all six runs agree on exit status and on (errors, warnings, infos) parsed from the summary line and from the -json document; " +
@@ -60,23 +60,27 @@ type batch struct {
 }
 
 type gctx struct {
-	r *rand.Rand
-	n int
+	r     *rand.Rand
+	n     int
+	downs int
 }
 
 func (g *gctx) nextN() int { g.n++; return g.n }
 
 type picked struct {
+	in    *Input
 	once  map[string]bool
 	regex map[string]bool // file/scope already holding a regex-group entry
 }
 
-func newPicked() *picked { return &picked{once: map[string]bool{}, regex: map[string]bool{}} }
+func newPicked(in *Input) *picked {
+	return &picked{in: in, once: map[string]bool{}, regex: map[string]bool{}}
+}
 
 type filter struct {
 	sev      string
-	ruled    bool // must have a rule name
-	ignAt    bool // must be suppressible by a next-line comment
+	ruled    bool   // must have a rule name
+	ignAt    bool   // must be suppressible by a next-line comment
 	snippet  string // "" or the snippet scope name: must be usable in a snippet of that scope
 	file     string
 	notRules map[string]bool
@@ -125,6 +129,11 @@ func (g *gctx) inject(pk *picked, k int, f filter, files []string, snippet bool)
 			}
 			e := cands[g.r.Intn(len(cands))]
 			if e.Once && pk.once[e.ID] {
+				continue
+			}
+			if e.TopInclude && pk.in.HasStm {
+				// any top-level include statement combined with an include inside vcl_recv trips the
+				// scope-UNKNOWN linter defect described in layout()
 				continue
 			}
 			n := g.nextN()
@@ -218,7 +227,7 @@ func (g *gctx) downCfg(rules []string, target string) Cfg {
 func (g *gctx) makeInput(class string, thorough bool) *Input {
 	r := g.r
 	in := &Input{Class: class, Cfgs: []Cfg{none}}
-	pk := newPicked()
+	pk := newPicked(in)
 	any := func(files []string, kE, kW, kI int) {
 		in.Injs = append(in.Injs, g.inject(pk, kE, filter{sev: sevE}, files, false)...)
 		in.Injs = append(in.Injs, g.inject(pk, kW, filter{sev: sevW}, files, false)...)
@@ -284,7 +293,9 @@ func (g *gctx) makeInput(class string, thorough bool) *Input {
 				in.Cfgs = append(in.Cfgs, g.downCfg(rules, t))
 			}
 		} else {
-			in.Cfgs = append(in.Cfgs, g.downCfg(rules, targets[r.Intn(4)]))
+			// rotate so that even a small quick run maps down to every level
+			in.Cfgs = append(in.Cfgs, g.downCfg(rules, targets[g.downs%4]))
+			g.downs++
 		}
 	case "override-partial":
 		files := g.layout(in)
@@ -514,7 +525,7 @@ func gen(g *fw.GenCtx) {
 	}
 
 	// 3. random inputs over the class plan
-	n := g.Pick(72, 1320)
+	n := g.Pick(144, 1320)
 	var cur []Input
 	for i := 0; i < n; i++ {
 		in := gc.makeInput(classPlan[i%len(classPlan)], thorough)
@@ -600,12 +611,12 @@ func runCLI(dir string, args []string, timeout time.Duration) runResult {
 type obs struct {
 	flags    string
 	rr       runResult
-	failed   bool    // exit status != 0
-	has      bool    // counts available
-	c        counts  // the counts this mode reports (json: the document; plain: the summary line)
-	sumHas   bool    // summary line found on stderr
-	sum      counts  // counts of the summary line
-	jsonOK   bool    // stdout is exactly one JSON document
+	failed   bool   // exit status != 0
+	has      bool   // counts available
+	c        counts // the counts this mode reports (json: the document; plain: the summary line)
+	sumHas   bool   // summary line found on stderr
+	sum      counts // counts of the summary line
+	jsonOK   bool   // stdout is exactly one JSON document
 	jsonErr  string
 	parseErr int // number of entries in ParseErrors (json)
 	lintErrs int // number of entries in LintErrors (json)
@@ -626,9 +637,9 @@ func parseSummary(stderr []byte) (counts, bool) {
 }
 
 type jsonDoc struct {
-	Infos       *int                       `json:"Infos"`
-	Warnings    *int                       `json:"Warnings"`
-	Errors      *int                       `json:"Errors"`
+	Infos       *int                         `json:"Infos"`
+	Warnings    *int                         `json:"Warnings"`
+	Errors      *int                         `json:"Errors"`
 	LintErrors  map[string][]json.RawMessage `json:"LintErrors"`
 	ParseErrors map[string]json.RawMessage   `json:"ParseErrors"`
 }
@@ -829,7 +840,8 @@ func runVariant(oc *fw.Outcome, in *Input, b *Built, cfg Cfg, constructionOK boo
 	if cfg.Label != "none" {
 		files[".falco.yml"] = yamlOf(cfg)
 		for _, r := range cfg.Rules {
-			oc.Tag("override:" + r[0] + "=" + strings.ToUpper(r[1]))
+			oc.Tag("overridden-rule:" + r[0])
+			oc.Tag("override-to:" + strings.ToUpper(r[1]))
 		}
 	}
 	for name, text := range files {
